@@ -183,6 +183,11 @@ pub fn run(r: &mut R) {
 VK = {"unit": [], "t0": [], "n0": [], "t11": list(range(11)), "n11": list(range(11)), "t1": [0], "t2": [0, 1], "n2": [0, 1], "n1": [0], "t3": [0, 1, 2]}
 
 
+# variant and field names: not in alphabetical order, with a leading underscore, raw
+VN = ["Zeta", "_Under", "Alpha", "r#Type"]
+GN = ["zeta", "_under", "alpha", "r#type", "mid", "_0x", "beta", "Upper", "_u", "f10", "f2"]
+
+
 def enum_case(cid, kinds, typing, forward):
     """Add-like (and Mul-like under forward) + Not/Neg on an enum; every ordered pair of values."""
     variants, mkl, mkr = [], [], []
@@ -190,11 +195,11 @@ def enum_case(cid, kinds, typing, forward):
         idx = VK[k]
         tys = field_types(len(idx), "same" if typing == "same" else "distinct")
         named = k.startswith("n")
-        name = "V%d" % vi
+        name = VN[vi]
         if k == "unit":
             variants.append(name)
         elif named:
-            variants.append(name + " { " + ", ".join("g%d: %s" % (i, t) for i, t in zip(idx, tys)) + " }")
+            variants.append(name + " { " + ", ".join("%s: %s" % (GN[i], t) for i, t in zip(idx, tys)) + " }")
         else:
             variants.append(name + "(" + ", ".join(tys) + ")")
 
@@ -204,15 +209,15 @@ def enum_case(cid, kinds, typing, forward):
         idx = VK[k]
         named = k.startswith("n")
         if k == "unit":
-            return "E::V%d" % vi
+            return "E::%s" % VN[vi]
         vals = ["lf::<%d>(%d)" % (tyidx(i), base + 10 * vi + i) for i in idx]
-        return "E::V%d%s" % (vi, mk(named, ["g%d" % i for i in idx], vals))
+        return "E::%s%s" % (VN[vi], mk(named, [GN[i] for i in idx], vals))
 
     def expval(vi, k, f):
         idx = VK[k]
         named = k.startswith("n")
         vals = ["Tg::<%d>(%s)" % (tyidx(i), f(i)) for i in idx]
-        return "E::V%d%s" % (vi, mk(named, ["g%d" % i for i in idx], vals))
+        return "E::%s%s" % (VN[vi], mk(named, [GN[i] for i in idx], vals))
 
     has_unit = "unit" in kinds
     lines = []
@@ -243,6 +248,7 @@ def enum_case(cid, kinds, typing, forward):
     mod = """use super::*;
 #[derive(Clone, Debug, PartialEq, %s)]
 %s
+#[allow(non_camel_case_types, non_snake_case)]
 pub enum E { %s }
 pub fn run(r: &mut R) {
     %s
